@@ -48,7 +48,7 @@ fn spawn() -> (Child, ChildStdin, Receiver<String>) {
 
 /// Whole daemon histories take longer than component ops.
 fn timeout_for(line: &str, base: Duration) -> Duration {
-    if line.starts_with("sim") || line.starts_with("backoff") {
+    if line.starts_with("sim") || line.starts_with("backoff") || line.starts_with("stress-") {
         Duration::from_secs(90)
     } else {
         base
